@@ -153,8 +153,8 @@ def rule_admit_live(ctx):
         return r
     nid = ur['nid']
     b = prog.bodies[nid]
-    entry_p = ('param', ur['entry'])
-    key_p = ('param', ur['key']) if ur.get('key') else None
+    entry_p = ur['entry_t']
+    key_p = ur.get('key_t')
     sx = ctx.symex(inline_depth=3, loop_visits=2, inline_pred=lambda n, bb, d: False if 'handle_remove' in n else None)
     try:
         paths = [p for p in sx.run(nid) if not p.diverged]
